@@ -133,6 +133,46 @@ def rule_bit_tagged(ctx):
 ACCESS = {"is_null": "is_null", "tag": "tag", "with_tag": "with_tag", "ptr_eq": "ptr_eq"}
 
 
+def _word_of_arg(t, k):
+    """is `t` the `.ptr` of argument k (through refs, derefs, loads)?"""
+    from .sym import strip
+    t = strip(t)
+    while isinstance(t, tuple) and t[0] in ("ref", "load", "deref"):
+        t = strip(t[1])
+    if not (isinstance(t, tuple) and t[0] == "field" and t[1] == "ptr"):
+        return False
+    x = strip(t[2])
+    while isinstance(x, tuple) and x[0] in ("ref", "load", "deref"):
+        x = strip(x[1])
+    return isinstance(x, tuple) and x[0] == "arg" and x[1] == k
+
+
+def _delegation_operands(ctx, b, meth, want):
+    from .sym import strip
+    ps = [p for p in ctx.ex.paths(b) if p.exit[0] == "return"]
+    if len(ps) != 1:
+        return False
+    ret = strip(ps[0].ret)
+    if meth == "with_tag":
+        # the handle itself with its word replaced: `self.ptr = self.ptr.with_tag(tag); self` or a struct literal
+        call = None
+        if isinstance(ret, tuple) and ret[0] == "upd" and strip(ret[1]) == ("arg", 1, b.local_name(1)) and ret[2] == (("field", "ptr"),):
+            call = strip(ret[3])
+        elif isinstance(ret, tuple) and ret[0] == "agg" and ret[3]:
+            call = strip(ret[3][0])
+        if not (isinstance(call, tuple) and call[0] == "call" and norm(call[1]) == want and len(call[2]) == 2):
+            return False
+        tg = strip(call[2][1])
+        return _word_of_arg(call[2][0], 1) and isinstance(tg, tuple) and tg[0] == "arg" and tg[1] == 2
+    if not (isinstance(ret, tuple) and ret[0] == "call" and norm(ret[1]) == want):
+        return False
+    if meth == "ptr_eq":
+        if len(ret[2]) != 2:
+            return False
+        return (_word_of_arg(ret[2][0], 1) and _word_of_arg(ret[2][1], 2)) or (_word_of_arg(ret[2][0], 2) and _word_of_arg(ret[2][1], 1))
+    return len(ret[2]) == 1 and _word_of_arg(ret[2][0], 1)
+
+
 def rule_bit_delegation(ctx):
     r = RuleResult("BIT-DELEGATION", ["C11"],
                    "the public accessors of Rc/Snapshot/Weak/WeakSnapshot (is_null, tag, with_tag, ptr_eq, deref, Pointer/"
@@ -162,6 +202,15 @@ def rule_bit_delegation(ctx):
             if not ok:
                 r.violate(name, meth, "does not go (only) through Tagged::%s (calls %s): the internal epoch bits may become "
                           "visible" % (meth, tg), b.loc(0))
+                continue
+            # ... applied to the handle's own word (and, for ptr_eq, the other handle's; for with_tag, the given tag), the
+            # result handed back as it is (mutation sweep 3: `other.ptr.ptr_eq(other.ptr)`)
+            okop = _delegation_operands(ctx, b, meth, want)
+            r.instance("%s = Tagged::%s(self.ptr%s)" % (name, meth, {"ptr_eq": ", other.ptr", "with_tag": ", tag"}.get(meth, "")), okop)
+            if not okop:
+                r.violate(name, meth + "-operands", "Tagged::%s is not applied to this handle's own word%s, or its result is not "
+                          "what is returned" % (meth, {"ptr_eq": " and the other handle's", "with_tag": " and the given tag"}.get(meth, "")),
+                          b.loc(0))
     # formatting: Pointer/Debug of the six types go through Tagged's fmt (which formats as_raw())
     fm = ["<strong::Rc<T> as std::fmt::Pointer>::fmt", "<strong::Snapshot<'g, T> as std::fmt::Pointer>::fmt",
           "<weak::Weak<T> as std::fmt::Pointer>::fmt", "<weak::Weak<T> as std::fmt::Debug>::fmt",
